@@ -246,6 +246,33 @@ theorem axldown_write_refines_mem (c : DownCfg) (hr : 0 < c.ratio) (mem0 : Mem) 
   · exact DownW.step c hr s i hinv hok
   · simp [S, DownW.sys, DownW.Inv, DownW.init, AxlMem.init, AxlGhost.init]
 
+/-- **Down-converter, read path (any ratio ≥ 1).**  In front of a narrow AXI-Lite byte memory of arbitrary timing:
+    one R per accepted AR, never a second acceptance while one is pending, the R is OKAY, repeated unchanged until
+    taken, and its data is the wide word assembled from the `ratio` narrow words at
+    `addr aligned to the wide word + k·nbTo`, `k = 0 … ratio-1`, lowest address in the least significant lanes
+    (`DownR.wideRd`) — whatever `r_data` held before (the shift register is fully flushed). -/
+theorem axldown_read_refines_mem (c : DownCfg) (hr : 0 < c.ratio) (mem0 : Mem) (ins : List (AxlM × AxlOracle)) :
+    let S := DownR.sys c mem0
+    S.LegalFrom (fun s i => s.g.reqHeld i.1) S.init ins →
+    S.AlwaysFrom (fun s i =>
+        s.g.rspHeld (S.out s i).1 ∧
+        ((S.out s i).1.rvalid = true →
+           ∃ a, s.g.pendAR = some a ∧ (S.out s i).1.rresp = respOkay ∧ (S.out s i).1.rdata = DownR.wideRd c s.g.ref a) ∧
+        (i.1.arvalid = true → (S.out s i).1.arready = true → s.g.pendAR = none)) S.init ins := by
+  intro S
+  refine Machine.always_of_invariant S _ _ (DownR.Inv c) (fun s i hinv hok => ?_) ins S.init ?_
+  · exact DownR.step c hr s i hinv hok
+  · have : 0 < (256 ^ c.nbTo) ^ c.ratio := Nat.pow_pos (Nat.pow_pos (by decide))
+    simp [S, DownR.sys, DownR.Inv, DownR.init, AxlMem.init, AxlGhost.init, this]
+
+/-- `wideRd` on a concrete memory: 32→8 (ratio 4), bytes 0x11 0x22 0x33 0x44 at addresses 4…7 read as 0x44332211
+    from any address inside that word. -/
+example :
+    let c : DownCfg := { ratio := 4, nbTo := 1, abits := 8 }
+    DownR.wideRd c (Mem.ofList [0, 0, 0, 0, 0x11, 0x22, 0x33, 0x44]) 6 = 0x44332211 := by
+  simp [DownR.wideRd, DownR.pack, DownR.subWord, DownCfg.subAddr, DownCfg.nbFrom, Mem.readWord, Mem.readBytes,
+    Mem.ofList, bytesWord, List.range, List.range.loop]
+
 /-- Non-vacuity / the fixed finding C09-axil-downconv-write-hang in the model: 64→32 (ratio 2, 4-byte narrow
     words), wide write with strobe 0xF0 to a partner that is ready all the time: the write completes (B presented
     after 6 cycles) and only the upper narrow word is written. -/
@@ -325,6 +352,37 @@ theorem axi2axl_read_burst_partial (aw : Nat) (ins : List (AxiM × AxlS)) :
   refine Machine.always_of_invariant S _ _ Axi2Axl.RInv (fun s i hinv hok => ?_) ins S.init ?_
   · exact Axi2Axl.rstep aw s i hinv hok.1 hok.2
   · simp [S, Axi2Axl.rsys, Axi2Axl.RInv, Axi2Axl.init, Litex.Axi.b2bInit]
+
+/-- Negative witness (finding C09-axi2axil-rlast-pipelined-slave): INCR burst of 4 beats; the AXI-Lite partner
+    accepts the four ARs before answering; the first R beat (`rCnt = 0`, `len = 3`) is handed over with `last`. -/
+example :
+    let S := Axi2Axl.rsys 32
+    let rq : Litex.Axi.Req := { addr := 0x100, len := 3, size := 2, burst := 1, id := 1 }
+    let mi : AxiM := { awvalid := false, aw := zeroReq, wvalid := false, wdata := 0, wstrb := 0, wlast := false,
+                       bready := false, arvalid := false, ar := zeroReq, rready := true }
+    let ar : AxiM := { mi with arvalid := true, ar := rq }
+    let acc : AxlS := { AxlS.idle with arready := true }
+    let s := S.runFrom S.init [(ar, AxlS.idle), (mi, acc), (mi, acc), (mi, acc), (mi, acc)]
+    let o := S.out s (mi, { AxlS.idle with rvalid := true, rdata := 7 })
+    s.br.st = .read ∧ s.arCnt = 4 ∧ s.rCnt = 0 ∧ o.1.rvalid = true ∧ o.1.rlast = true := by
+  decide
+
+/-- Non-vacuity of `axi2axl_read_burst_partial`: the same burst with a partner that answers each AR before taking
+    the next is legal for 9 cycles and ends with the fourth beat marked `last`. -/
+example :
+    let S := Axi2Axl.rsys 32
+    let rq : Litex.Axi.Req := { addr := 0x100, len := 3, size := 2, burst := 1, id := 1 }
+    let mi : AxiM := { awvalid := false, aw := zeroReq, wvalid := false, wdata := 0, wstrb := 0, wlast := false,
+                       bready := false, arvalid := false, ar := zeroReq, rready := true }
+    let ar : AxiM := { mi with arvalid := true, ar := rq }
+    let acc : AxlS := { AxlS.idle with arready := true }
+    let ans : AxlS := { AxlS.idle with rvalid := true, rdata := 7 }
+    let ins := [(ar, AxlS.idle), (mi, acc), (mi, ans), (mi, acc), (mi, ans), (mi, acc), (mi, ans), (mi, acc)]
+    let s := S.runFrom S.init ins
+    let o := S.out s (mi, ans)
+    (∀ k, k < 8 → Axi2Axl.singleOutstanding (S.runFrom S.init (ins.take k)) (ins.getD k (mi, ans))) ∧
+    s.rCnt = 3 ∧ o.1.rvalid = true ∧ o.1.rlast = true := by
+  decide
 
 /-- The beat addresses the bridge issues are those of `AXIBurst2Beat` (whose address theorems are C10's), the
     responses are constants and the AXI-Lite B channel is always ready — every state, every input. -/
